@@ -117,6 +117,7 @@ func init() {
 			{Name: "bind-ops+slash", Sc: scBind(defaultParams(), bindOpsFull(), []Template{tSlash}, []string{"bad", "ok"}, d, b, m), Oracles: o},
 			{Name: "bind-ops+two-failures", Sc: scBind(paramSet("0.1", "0.001"), bindOpsSmall(), []Template{tSlash2}, []string{"bad", "ok"}, d+1, b+1, 2), Oracles: o},
 			{Name: "life-super", Sc: scLife(defaultParams(), []Template{tOne, tSuper}, AlphaOpts{RespKinds: []string{"ok", "bad"}, CtxOps: []string{"kill"}}, d+1, b+1, 2), Oracles: o},
+			{Name: "slash-after-refund", Sc: scBind(defaultParams(), []Action{actBind("a", "P1", "O1", 10, "p1", 1), actDisable("a", "P1", "O1"), actRefund("a", "P1", "O1")}, []Template{tSlash3}, []string{"bad"}, d+1, b+1, 2), Oracles: o},
 		}
 		runs = append(runs, runsOf(lifeRuns(tier), o, MonFlags{})...)
 		if tier == "thorough" {
@@ -174,7 +175,7 @@ func init() {
 		runs := []RunSpec{
 			{Name: "cadence-rep2+inf", Sc: withFunds(scLife(paramSet("0.1", "0.001"), []Template{tRep2, tInf}, ctlO, d, b, m), 40, 5), Oracles: o, Mon: mf},
 			{Name: "cadence-rep1+long+f3", Sc: withFunds(scLife(paramSet("0.1", "0.001"), []Template{tRep1, tLong, tF3}, AlphaOpts{RespKinds: []string{"ok"}, CtxOps: []string{"pause", "start"}, Updates: []CtxUpdate{updTotalUp}}, d, b, m), 40, 5), Oracles: o, Mon: mf},
-			{Name: "frequency-boundaries", Sc: withFunds(scLife(paramSet("0.1", "0.001"), []Template{tHuge, tMax, tBig}, AlphaOpts{CtxOps: []string{"pause", "start"}}, 5, 4, 2), 40, 5), Oracles: o, Mon: mf},
+			{Name: "frequency-boundaries", Sc: withFunds(scLife(paramSet("0.1", "0.001"), []Template{tHuge, tMax, tBig, tOneTot}, AlphaOpts{CtxOps: []string{"pause", "start"}}, 5, 4, 2), 40, 5), Oracles: o, Mon: mf},
 		}
 		runs = append(runs, runsOf(lifeRuns(tier), o, mf)...)
 		return runs
@@ -185,7 +186,7 @@ func init() {
 		ctlO := AlphaOpts{RespKinds: []string{"ok"}, CtxOps: []string{"pause", "start", "kill"}, Updates: []CtxUpdate{updTotalUp, updTotalInf, updTimeout2, updFreq2}}
 		runs := []RunSpec{
 			{Name: "life-events", Sc: withFunds(scLife(paramSet("0.1", "0.001"), []Template{tRep2, tInf, tPoor}, ctlO, d, b, m), 40, 1), Oracles: o},
-			{Name: "frequency-boundaries", Sc: withFunds(scLife(paramSet("0.1", "0.001"), []Template{tHuge, tMax, tBig}, AlphaOpts{CtxOps: []string{"pause", "start"}}, 5, 4, 2), 40, 5), Oracles: o},
+			{Name: "frequency-boundaries", Sc: withFunds(scLife(paramSet("0.1", "0.001"), []Template{tHuge, tMax, tBig, tOneTot}, AlphaOpts{CtxOps: []string{"pause", "start"}}, 5, 4, 2), 40, 5), Oracles: o},
 		}
 		runs = append(runs, runsOf(lifeRuns(tier), o, MonFlags{})...)
 		return runs
@@ -204,7 +205,8 @@ func init() {
 	register(&CheckSpec{Prop: "C13", Runs: func(tier string) []RunSpec {
 		d, b, m := bump(tier, 7, 3, 4)
 		o := []Oracle{oracleC13{}}
-		runs := []RunSpec{{Name: "fees", Sc: scFees(paramSet("0.1", "0.001"), true, d, b, m), Oracles: o}}
+		runs := []RunSpec{{Name: "fees", Sc: scFees(paramSet("0.1", "0.001"), true, d, b, m), Oracles: o},
+			{Name: "fees-after-refund", Sc: scFeesRefund(paramSet("0.1", "0.001"), d-1, b, m-1), Oracles: o}}
 		runs = append(runs, runsOf(lifeRuns(tier), o, MonFlags{}, "life-main", "life-control", "mod-main")...)
 		return runs
 	}})
@@ -257,6 +259,8 @@ func init() {
 			{Name: "later-operations", Sc: scLife(defaultParams(), []Template{tOne, tRep2}, AlphaOpts{RespKinds: []string{"ok", "bad"}, CtxOps: []string{"pause", "start", "kill"}, Withdraw: []string{"O1:"},
 				BindOps: []Action{actDisable("a", "P1", "O1"), actEnable("a", "P1", "O1", 0), actUpdate("a", "P2", "O2", 0, "p3vv", 0)}}, 7+d, 4, 2), Oracles: o},
 			{Name: "bind-ops+slash", Sc: scBind(defaultParams(), bindOpsFull(), []Template{tSlash}, []string{"bad"}, 6+d, 4, 3), Oracles: o},
+			{Name: "bind-ops+slash-all", Sc: scBind(paramSet("0.5", "1"), bindOpsSmall(), []Template{tSlash2}, []string{"bad"}, 6+d, 4, 2), Oracles: o},
+			{Name: "slash-after-refund", Sc: scBind(defaultParams(), []Action{actBind("a", "P1", "O1", 10, "p1", 1), actDisable("a", "P1", "O1"), actRefund("a", "P1", "O1")}, []Template{tSlash3}, []string{"bad"}, 8+d, 5, 2), Oracles: o},
 		}
 	}})
 	register(&CheckSpec{Prop: "C17", Runs: func(tier string) []RunSpec {
@@ -292,8 +296,8 @@ func init() {
 			d = 2
 		}
 		o := []Oracle{oracleC19{}}
-		mainO := AlphaOpts{RespKinds: []string{"ok", "bad"}, CtxOps: []string{"pause", "kill"}, Withdraw: []string{"O1:P1"}, SetW: []string{"O1:W1"},
-			BindOps: []Action{actDisable("a", "P1", "O1"), actRefund("a", "P1", "O1")}}
+		mainO := AlphaOpts{RespKinds: []string{"ok", "bad"}, CtxOps: []string{"pause", "kill"}, Updates: []CtxUpdate{updTimeout3}, Withdraw: []string{"O1:P1"}, SetW: []string{"O1:W1"},
+			BindOps: []Action{actDisable("a", "P1", "O1"), actRefund("a", "P1", "O1"), actUpdate("a", "P2", "O2", 0, "p5", 0)}}
 		return []RunSpec{
 			{Name: "life-export-points", Sc: scLife(defaultParams(), []Template{tOne, tRep2, tPoor}, mainO, 6+d, 4, 2), Oracles: o, Post: genesisPost},
 			{Name: "fees-export-points", Sc: scFees(paramSet("0.1", "0.001"), false, 5+d, 3, 3), Oracles: o, Post: genesisPost},
